@@ -132,7 +132,7 @@ class Aspire:
     @property
     def n_likelihood_evaluations(self):
         """The number of likelihood evaluations."""
-        if hasattr(self, "_sampler"):
+        if getattr(self, "_sampler", None) is not None:
             return self._sampler.n_likelihood_evaluations
         else:
             return None
